@@ -282,6 +282,12 @@ pub fn contexts() -> Vec<Ctx> {
         ("(?<=(?=X)(?=a)[ab])", Box::new(move |x| Look(b(Concat(vec![Look(b(x), false, false), Look(b(la()), false, false), Node::class("[ab]")])), true, false))),
         ("(?<=(?=a)a(?<=X)b)c?", Box::new(move |x| Concat(vec![Look(b(Concat(vec![Look(b(la()), false, false), la(), Look(b(x), true, false), lb()])), true, false), Repeat(b(Node::lit("c")), 0, Some(1), Mode::Greedy)]))),
         ("(?=(?=X)a(?=b)b)[ab]", Box::new(move |x| Concat(vec![Look(b(Concat(vec![Look(b(x), false, false), la(), Look(b(lb()), false, false), lb()])), false, false), Node::class("[ab]")]))),
+        // a referenced group with a VM-compiled body inside a negative look-around
+        ("(?!(\\bX)\\1)[ab]+", Box::new(move |x| Concat(vec![Look(b(Concat(vec![Node::group(Concat(vec![Assert(A::WordB), x])), Backref(1)])), false, true), Repeat(b(Node::class("[ab]")), 1, None, Mode::Greedy)]))),
+        ("\\b(?!(X\\b)\\1?c)[abc]+", Box::new(move |x| Concat(vec![Assert(A::WordB), Look(b(Concat(vec![Node::group(Concat(vec![x, Assert(A::WordB)])), Repeat(b(Backref(1)), 0, Some(1), Mode::Greedy), Node::lit("c")])), false, true), Repeat(b(Node::class("[abc]")), 1, None, Mode::Greedy)]))),
+        // one delegated run that starts with a capture group and ends with a non-capturing one
+        ("(X)(?:a|b)(?!c)", Box::new(move |x| Concat(vec![Node::group(x), Alt(vec![la(), lb()]), Look(b(Node::lit("c")), false, true)]))),
+        ("\\b(a)X(?:b|c)", Box::new(move |x| Concat(vec![Assert(A::WordB), Node::group(la()), x, Alt(vec![lb(), Node::lit("c")])]))),
         // an optional group that ends in a negative look-around (its Split branch and the
         // look-around's own branch sit next to each other on the stack)
         ("a(?:X|(?!b))?b", Box::new(move |x| Concat(vec![la(), Repeat(b(Alt(vec![x, Look(b(lb()), false, true)])), 0, Some(1), Mode::Greedy), lb()]))),
